@@ -41,7 +41,10 @@ import (
 	"github.com/algorand/go-algorand/agreement"
 	"github.com/algorand/go-algorand/config"
 	"github.com/algorand/go-algorand/data/basics"
+	"github.com/algorand/go-algorand/data/bookkeeping"
 	"github.com/algorand/go-algorand/data/committee"
+	"github.com/algorand/go-algorand/data/transactions/logic"
+	"github.com/algorand/go-algorand/ledger/eval"
 	"github.com/algorand/go-algorand/ledger/ledgercore"
 	"github.com/algorand/go-algorand/logging"
 	"github.com/algorand/go-algorand/protocol"
@@ -99,8 +102,20 @@ func (h *c12Harness) reset(op string) string {
 	return "ok"
 }
 
+// begin is the package's nextBlock helper without its require.NoError (a failing StartEvaluator is an output, not a test abort)
 func (h *c12Harness) begin() string {
-	h.lc.ev = nextBlock(h.lc.t, h.lc.l)
+	l := h.lc.l
+	hdr, err := l.BlockHdr(l.Latest())
+	if err != nil {
+		return "begin-error hdr:" + lcClassify(err)
+	}
+	nextHdr := bookkeeping.MakeBlock(hdr).BlockHeader
+	nextHdr.TimeStamp = hdr.TimeStamp + 1
+	ev, err := eval.StartEvaluator(l, nextHdr, eval.EvaluatorOptions{Generate: true, Validate: true, Tracer: logic.EvalErrorDetailsTracer{}})
+	if err != nil {
+		return "begin-error start:" + lcClassify(err)
+	}
+	h.lc.ev = ev
 	return fmt.Sprintf("r=%d level=%d", h.lc.ev.Round(), h.lc.ev.VerifLcoreRewardsLevel())
 }
 
@@ -463,8 +478,10 @@ func TestVerifC12(t *testing.T) {
 		}
 		run("q")
 		blocks := 5 + g.r.Intn(12)
-		for b := 0; b < blocks; b++ {
-			if res := run("begin"); !strings.HasPrefix(res, "r=") {
+		dead := func() bool { return h.lc.l == nil } // a PANIC abandoned the ledger: the case ends (the monitor reports the PANIC line)
+		lb := h.lc.l.cfg.MaxAcctLookback
+		for b := 0; b < blocks && !dead(); b++ {
+			if res := run("begin"); !strings.HasPrefix(res, "r=") || dead() || h.lc.ev == nil {
 				break
 			}
 			p := h.lc.ev.ConsensusParams()
@@ -474,22 +491,27 @@ func TestVerifC12(t *testing.T) {
 			if g.r.Chance(10) {
 				ngroups = 0 // an empty block: rewards only
 			}
-			for i := 0; i < ngroups; i++ {
+			for i := 0; i < ngroups && !dead() && h.lc.ev != nil; i++ {
 				run(c12GenGroup(g, h.lc.view()))
+			}
+			if dead() || h.lc.ev == nil {
+				break
 			}
 			obs, res := h.exec("end")
 			out.Emit("end "+obs, res)
-			if !strings.HasPrefix(res, "T=") {
+			if !strings.HasPrefix(res, "T=") || dead() {
 				break
 			}
 			run("q")
-			for g.r.Chance(35) {
+			for !dead() && g.r.Chance(35) {
 				if g.r.Chance(70) {
 					run(fmt.Sprintf("commit lb=%d", g.pick(0, 0, 1, 1, 2, 3, 4, 4, 8)))
 				} else {
-					run(fmt.Sprintf("reload lb=%d", h.lc.l.cfg.MaxAcctLookback))
+					run(fmt.Sprintf("reload lb=%d", lb))
 				}
-				run("q")
+				if !dead() {
+					run("q")
+				}
 			}
 		}
 	}
